@@ -112,6 +112,9 @@ def memory_run(plan_, nthreads, oplists, counters):
     problems = list(hook_problems[:3])
     for n, e in errs.items():
         problems.append("%s: a MemoryLogger call raised %r" % (n, e))
+    if st["deadlock"]:
+        problems.append("threads deadlocked inside the logger: %s" % st["deadlock"])
+        return st, problems, hook_hits[0], False
     if st["aborted"]:
         return st, problems, hook_hits[0], True
     msgs, ss = logger.messages, logger.serializers
@@ -283,7 +286,9 @@ def run_filesched(spec, res):
             res["sets"]["preemption_lines"].append(loc)
         if st["fired"]:
             res["nontrivial"].append(sched.trace_hash(st))
-        if st["aborted"]:
+        if st["deadlock"]:
+            problems.append("threads deadlocked inside the file destination: %s" % st["deadlock"])
+        elif st["aborted"]:
             res["inconclusive"] = "schedule abandoned: %s" % st["aborted"]
         if problems and len(res["violations"]) < 3:
             res["violations"].append({"msg": problems[0], "mech": None, "detail": {"part": "filesched", "plan": plan_, "problems": problems[:5]}})
